@@ -35,7 +35,8 @@ Dec(s, t, i) == s.eps[i].available -- t.eps[i].available
 RECURSIVE SumDec(_, _, _)
 SumDec(s, t, i) == IF i = 0 THEN Zero ELSE Dec(s, t, i) ++ SumDec(s, t, i - 1)
 
-ClaimChecks(s, u, t, payout) ==
+\* `after` = indices of the epochs that started after u bonded
+ClaimChecks(s, u, t, payout, after) ==
   << <<"C09.claim.same-epochs", NEp(t) = NEp(s)>>,
      <<"C09.claim.only-decreases-available", \A i \in 1 .. NEp(s) : Zero \preceq Dec(s, t, i)>>,
      <<"C09.claim.claimed+available=total",
@@ -43,7 +44,7 @@ ClaimChecks(s, u, t, payout) ==
      <<"C09.claim.only-epochs-in-grace-window", \A i \in 1 .. NEp(s) : Zero \prec Dec(s, t, i) => i \in Window(s)>>,
      <<"C09.claim.at-most-once-per-epoch", \A i \in 1 .. NEp(s) : Zero \prec Dec(s, t, i) => <<u, i>> \notin s.paid>>,
      <<"C09.claim.never-for-epochs-before-bonding",
-        \A i \in 1 .. NEp(s) : Zero \prec Dec(s, t, i) => s.first[u] \prec N(i)>>,
+        \A i \in 1 .. NEp(s) : Zero \prec Dec(s, t, i) => i \in after>>,
      <<"C09.claim.payout=ledger-decrease", payout = SumDec(s, t, NEp(s))>>,
      <<"C09.claim.balance-decreases-by-payout", t.dbal = s.dbal -- payout /\ t.w[u] = s.w[u] ++ payout>>,
      <<"C09.claim.others-unpaid", \A v \in Users \ {u} : t.w[v] = s.w[v]>> >>
